@@ -871,15 +871,24 @@ def run(tier, seed, replay=None):
     t0 = _time.time()
     R.check_proofs(PROOF_FILES, build_targets=BUILD_TARGETS)
     t1 = _time.time()
+    # several C18 runs may share /verif/work/C18 (lead's sweeps, seeds): private scratch names per run
+    import os as _os
+    import shutil as _shutil
+    uid = f"{tier[0]}{_os.getpid()}"
     cases = gen_cases(R, tier, replay)
-    results = run_impl_cases(cases, "impl")
+    results = run_impl_cases(cases, "impl" + uid)
     t2 = _time.time()
     R.cov["evaluations"] = len(cases)
     try:
-        ev = evaluate(R, cases, results, "cases", per_file=max(40, min(400, len(cases) // (3 * cm.NCPU) + 1)))
+        ev = evaluate(R, cases, results, "cases" + uid, per_file=max(40, min(400, len(cases) // (3 * cm.NCPU) + 1)))
     except RuntimeError as ex:
         R.corr_broken.append(f"Coq evaluation of certificates/model failed: {str(ex)[:600]}")
-        return R.finish()
+        for pth in (cm.WORK / PID).glob(f"*{uid}*"):
+        try:
+            _shutil.rmtree(pth) if pth.is_dir() else pth.unlink()
+        except OSError:
+            pass
+    return R.finish()
 
     t3 = _time.time()
     R.cov["phase_wall_s"] = dict(proofs=round(t1 - t0, 1), implementation=round(t2 - t1, 1), coq_evaluation=round(t3 - t2, 1))
@@ -946,7 +955,7 @@ def run(tier, seed, replay=None):
             f = "jolt_ft" if solver == "jolt" else "orig_ft"
             exprs.append("[" + "; ".join(f"{f} {fflat(pp)}" for pp in perts) + "]")
         try:
-            outs = cm.coq_eval_lines(PID, HEADER, exprs, tag="recheck", per_file=10)
+            outs = cm.coq_eval_lines(PID, HEADER, exprs, tag="recheck" + uid, per_file=10)
             for (i, solver, detail), o in zip(suspects, outs):
                 extra = [(norm_jolt if solver == "jolt" else norm_orig)(m) for m in parse_coq_value(o)]
                 cmp = compare_jolt if solver == "jolt" else compare_orig
@@ -988,9 +997,9 @@ def run(tier, seed, replay=None):
     if (R.proof_broken or R.corr_broken) and not R.violations and not replay:
         extra = [gen_real(R.rng) for _ in range(2000)] + [gen_grid(R.rng) for _ in range(2000)] + \
                 [dict(pts=lattice_sample(R.rng, k, (-2, -1, 0, 1, 2)), gen=f"lattice5:k{k}") for k in (3, 4) for _ in range(1000)]
-        res2 = run_impl_cases(extra, "search")
+        res2 = run_impl_cases(extra, "search" + uid)
         try:
-            ev2 = evaluate(R, extra, res2, "search", per_file=400)
+            ev2 = evaluate(R, extra, res2, "searchc" + uid, per_file=400)
             R.cov["search_evaluations"] = len(extra)
             for c, r, e in zip(extra, res2, ev2):
                 fails, _ = judge(c, r, e)
@@ -1003,4 +1012,9 @@ def run(tier, seed, replay=None):
                     break
         except RuntimeError as ex:
             R.notes.append(f"search evaluation failed: {str(ex)[:300]}")
+    for pth in (cm.WORK / PID).glob(f"*{uid}*"):
+        try:
+            _shutil.rmtree(pth) if pth.is_dir() else pth.unlink()
+        except OSError:
+            pass
     return R.finish()
